@@ -211,6 +211,50 @@ func (h *clH) dump(id uint64) {
 
 func (h *clH) amount(maxDigits int) sdkmath.Int { return sdkmath.NewIntFromBigInt(h.e.R.Big(maxDigits)) }
 
+// amountToNextTick: the whole-unit input that moves the price exactly onto the next initialised tick (base in: downwards)
+func (h *clH) amountToNextTick(id uint64, baseIn bool) (sdkmath.Int, bool) {
+	ctx := h.c.Ctx()
+	k := h.c.App.LiquiditypoolKeeper
+	p, found, _ := k.GetPool(ctx, id)
+	if !found {
+		return sdkmath.Int{}, false
+	}
+	liq, err1 := sdkmath.LegacyNewDecFromStr(p.CurrentTickLiquidity)
+	cur, err2 := sdkmath.LegacyNewDecFromStr(p.CurrentSqrtPrice)
+	if err1 != nil || err2 != nil || !liq.IsPositive() || !cur.IsPositive() {
+		return sdkmath.Int{}, false
+	}
+	var best *int64
+	for _, t := range k.GetAllInitializedTicksForPool(ctx, id) {
+		ti := t.TickIndex
+		if baseIn && ti <= p.CurrentTick && (best == nil || ti > *best) {
+			best = &ti
+		}
+		if !baseIn && ti > p.CurrentTick && (best == nil || ti < *best) {
+			best = &ti
+		}
+	}
+	if best == nil {
+		return sdkmath.Int{}, false
+	}
+	var out sdkmath.Int
+	ok := false
+	func() {
+		defer func() { recover() }()
+		tp, err := lptypes.TickToSqrtPrice(*best, p.TickParams)
+		if err != nil || tp.Equal(cur) {
+			return
+		}
+		if baseIn {
+			out = lptypes.CalcAmountBaseDelta(liq, tp, cur, true).TruncateInt()
+		} else {
+			out = lptypes.CalcAmountQuoteDelta(liq, tp, cur, true).TruncateInt()
+		}
+		ok = out.IsPositive()
+	}()
+	return out, ok
+}
+
 func (h *clH) curTick(id uint64) int64 {
 	p, _, _ := h.c.App.LiquiditypoolKeeper.GetPool(h.c.Ctx(), id)
 	return p.CurrentTick
@@ -392,6 +436,17 @@ func (h *clH) swap(pool uint64) {
 	fe := e.R.N(5) > 0
 	amt := h.amount(1 + e.R.N(22))
 	k := c.App.LiquiditypoolKeeper
+	if e.R.N(4) == 0 {
+		// land exactly on the next initialised tick in the direction of the trade (no fee): the step reaches its target with
+		// nothing left, so the crossing conventions (cursor t-1 / t, ±net) are what the next operation sees
+		if a, ok := h.amountToNextTick(pool, dir == 0); ok {
+			amt, fe = a, false
+			if e.R.N(3) == 0 {
+				amt = amt.AddRaw(int64(e.R.N(3)) - 1) // one unit short of / beyond the tick
+			}
+			e.Stat("swap.to_next_tick")
+		}
+	}
 	feB := "0"
 	if fe {
 		feB = "1"
